@@ -386,7 +386,7 @@ class MySQLHandshakeV10(MySQLPacketBase):  # pylint: disable=too-many-instance-a
         del parser['reserved']
 
         if MySQLCapability.CLIENT_PLUGIN_AUTH in capabilities:
-            if not auth_plugin_data_len:
+            if auth_plugin_data_len < 8:  # the length counts the 8 bytes of the first part, too
                 raise InvalidValue(auth_plugin_data_len, cls, 'auth_plugin_data_len')
 
             auth_plugin_data_2_len = auth_plugin_data_len - 8
